@@ -43,6 +43,8 @@ pub struct GenCfg {
     /// restrict the graph shapes (index into the shape table of `realise`); used where the
     /// library's path search is exponential in the number of alternative routes
     pub shapes: Option<&'static [u8]>,
+    /// some annotation calls / rows spell the record name differently (only where names are not compared)
+    pub alt_names: bool,
 }
 
 impl GenCfg {
@@ -60,6 +62,7 @@ impl GenCfg {
             border_ids: true,
             bulk_recs: false,
             shapes: None,
+            alt_names: false,
         }
     }
     pub fn standard(mut self) -> Self {
@@ -87,6 +90,10 @@ impl GenCfg {
     }
     pub fn shapes(mut self, s: &'static [u8]) -> Self {
         self.shapes = Some(s);
+        self
+    }
+    pub fn alt_names(mut self) -> Self {
+        self.alt_names = true;
         self
     }
     pub fn bulk(mut self) -> Self {
@@ -589,6 +596,7 @@ pub fn realise(raw: &RawFacts, cfg: &GenCfg) -> Facts {
                     kind: k as u8,
                     rec: r.id,
                     term: None,
+                    alt_name: None,
                 });
             }
         }
@@ -600,6 +608,15 @@ pub fn realise(raw: &RawFacts, cfg: &GenCfg) -> Facts {
         }
     }
     reorder(&mut calls, &raw.keys, 5);
+    if cfg.alt_names && !raw.keys.is_empty() {
+        // some calls spell the record name differently
+        for (i, c) in calls.iter_mut().enumerate() {
+            if raw.keys[(i * 5 + 3) % raw.keys.len()] % 4 == 0 {
+                let base = f.rec_name(c.kind as usize, c.rec).to_string();
+                c.alt_name = Some(format!("{base} (alias {})", i % 3));
+            }
+        }
+    }
     f.ann_calls = calls;
     if cfg.dup_terms {
         for d in &raw.dup_terms {
